@@ -30,7 +30,9 @@ SPEC = {
             "and uniform; for Montgomery-form types the edge structure is placed either in the value or in the internal representation a*R. "
             "non-trivial = the tuple contains an edge-class or unreduced operand, or the call is aliased (z=x, z=y, x=y, z=x=y); "
             "distinct by FNV-64 of (type, operation, back-end, alias, operands). Exhaustive sub-domains (Kyber 16-bit and Dilithium 32-bit "
-            "reductions) count one evaluation per input and one non-trivial object per shard. An aliased call is always preceded by the "
+            "reductions) count one evaluation per input and one non-trivial object per shard. Zero/one/equality predicates are additionally swept "
+            "deterministically over every single-bit and one-limb-mask difference of the internal (Montgomery) representation, and Kyber "
+            "Poly.Normalize/BarrettReduce over all int16 in all 16 SIMD lanes. An aliased call is always preceded by the "
             "same call on distinct objects, so a failure keyed '<type>/<op>/aliased' is caused by the aliasing itself.",
     "assumptions": COMMON_ASSUME + [
         "reference for the BLS12-381 tower: ref/fptower (polynomials in w over Fp2 with w^6 = 1+u on math/big, inverse by Gaussian elimination); "
